@@ -948,6 +948,25 @@ func calleeName(c *ssa.CallCommon) string {
 	if nt, ok := c.Value.Type().(*types.Named); ok && nt.Obj().Pkg() != nil {
 		return "dynamic:" + nt.Obj().Pkg().Path() + "." + nt.Obj().Name()
 	}
+	// a parameter / captured variable of an unnamed function type: dynamic:<pkg>.<name>  (contract `//@ func dynamic:reconstruct`)
+	switch pv := c.Value.(type) {
+	case *ssa.Parameter:
+		if pf := pv.Parent(); pf != nil {
+			for f := pf; f != nil; f = f.Parent() {
+				if f.Pkg != nil {
+					return "dynamic:" + f.Pkg.Pkg.Path() + "." + pv.Name()
+				}
+			}
+		}
+	case *ssa.FreeVar:
+		if pf := pv.Parent(); pf != nil {
+			for f := pf; f != nil; f = f.Parent() {
+				if f.Pkg != nil {
+					return "dynamic:" + f.Pkg.Pkg.Path() + "." + pv.Name()
+				}
+			}
+		}
+	}
 	return "dynamic:" + c.Value.Name()
 }
 
@@ -959,6 +978,17 @@ func (g *Gen) effectFree(name string) bool {
 		}
 	}
 	for _, p := range g.P.db.EffectFree {
+		if scope := g.P.db.EffectFreeProp[p]; scope != "" && g.prop != "" {
+			inScope := false
+			for _, sp := range strings.Split(scope, ",") {
+				if sp == g.prop {
+					inScope = true
+				}
+			}
+			if !inScope {
+				continue // declared for another property only
+			}
+		}
 		if matchPattern(p, name) {
 			g.trusted["effectfree "+p] = true
 			return true
